@@ -21,7 +21,7 @@ PORTS = [None, 80, 443, 81, 0]
 PATHS = ["", "/", "/a", "/A", "/a/", "/a%2Fb", "/a%2fb", "/a b", "/a/../b"]
 QUERIES = ["", "q", "q=1", "q=1&r", "Q", "a+b", "a%20b"]
 FRAGS = ["", "f", "F", "f%20"]
-ROUTES = ["str", "enc", "build", "pickle", "restore", "with_path", "origin-join"]
+ROUTES = ["str", "enc", "build", "pickle", "restore", "restore-hashed", "with_path", "origin-join"]
 
 
 def spec():
@@ -82,6 +82,20 @@ def make(Y, sp):
     if r == "restore":
         u = URL(s)
         return u.with_fragment("zzz").with_query("zz=1").with_query(u.query).with_fragment(u.fragment or None)
+    if r == "restore-hashed":
+        # the same detour, but every intermediate object is hashed/compared/ordered first (memoised values must not leak into derived URLs)
+        u = URL(s)
+        hash(u), u == u, u < u, str(u)
+        a = u.with_fragment("zzz")
+        hash(a)
+        b = a.with_query("zz=1")
+        hash(b), b <= a
+        c = b.update_query(zz="2").extend_query(y="1")
+        hash(c)
+        d = c.with_query(u.query)
+        hash(d)
+        e = d.with_fragment(u.fragment or None).with_scheme("x-tmp").with_scheme(u.scheme) if u.scheme else d.with_fragment(u.fragment or None)
+        return e
     if r == "with_path":
         u = URL(s)
         return u.with_path(u.path, keep_query=True, keep_fragment=True) if u.raw_path != "/" else u
